@@ -14,6 +14,7 @@ import Driver.State
 import Driver.Footnotes
 import Driver.Scan
 import Driver.Block
+import Driver.Doc
 open Lean
 
 def dispatch (op : String) (j : Json) : Except String Json :=
@@ -35,6 +36,9 @@ def dispatch (op : String) (j : Json) : Except String Json :=
   | "label.normalize" => Driver.Footnotes.normOp j
   | "scan" => Driver.Scan.scanOp j
   | "block.parse" => Driver.Block.parseOp j
+  | "doc.parse" => Driver.Doc.parseOp j
+  | "inline.tokenize" => Driver.Doc.inlineOp j
+  | "unescape" => Driver.Doc.unescapeOp j
   | "ping" => pure (Json.str "pong")
   | _ => throw s!"unknown op {op}"
 
